@@ -8,6 +8,29 @@ STATUSES = [100, 101, 102, 103, 199, 200, 200, 200, 201, 204, 205, '299 Custom',
 ITEM = st.one_of(st.sampled_from(['a', 'bc', '', 'é', 'x' * 40, '0']), st.text(max_size=6))
 
 
+EXC_TYPES = ['RuntimeError', 'ValueError', 'KeyError', 'TypeError', 'AttributeError', 'UnicodeDecodeError', 'UnicodeEncodeError', 'UnicodeError', 'OSError', 'LookupError',
+             'AssertionError', 'ZeroDivisionError', 'StopIteration', 'RecursionError', 'NotImplementedError', 'PermissionError', 'Custom']
+
+
+def make_exc(name):
+    if name == 'UnicodeDecodeError':
+        try:
+            b'\xff'.decode('utf8')
+        except UnicodeDecodeError as e:
+            return e
+    if name == 'UnicodeEncodeError':
+        try:
+            'é'.encode('ascii')
+        except UnicodeEncodeError as e:
+            return e
+    if name == 'Custom':
+        class HandlerProblem(Exception):
+            pass
+        return HandlerProblem('handler failed')
+    import builtins
+    return getattr(builtins, name or 'RuntimeError')('handler failed')
+
+
 def items_st():
     return st.tuples(st.sampled_from(['str', 'bytes']), st.lists(ITEM, max_size=4), st.integers(0, 2)).map(
         lambda t: {'type': t[0], 'items': [''] * t[2] + t[1]})
@@ -25,7 +48,9 @@ def outcome_st(draw, depth=0):
     k = draw(st.sampled_from(kinds))
     if k in ('str', 'bytes'):
         return {'k': k, 'v': draw(ITEM)}
-    if k in ('empty', 'none', 'exc'):
+    if k == 'exc':
+        return {'k': k, 'exc': draw(st.sampled_from(EXC_TYPES))}
+    if k in ('empty', 'none'):
         return {'k': k}
     if k == 'list':
         return dict(draw(items_st()), k='list')
@@ -163,7 +188,7 @@ def build(spec, tr, shared_store, reqno):
     if k == 'none':
         return 'return', None
     if k == 'exc':
-        return 'raise', RuntimeError('handler failed')
+        return 'raise', make_exc(spec.get('exc') or 'RuntimeError')
     if k == 'list':
         return 'return', [_enc(spec['type'], s) for s in spec['items']]
     if k == 'gen':
